@@ -98,7 +98,11 @@ BIND(ep_curve_params) {
 	ret_blob(c, ep_curve_get_a(), FPB);
 	ret_blob(c, ep_curve_get_b(), FPB);
 	ret_blob(c, ep_curve_get_b(), FPB); /* ep_curve_get_b3 is declared but not defined */
+#ifdef EP_ENDOM
 	ret_blob(c, ep_curve_get_beta(), FPB);
+#else
+	{ fp_t z_; fp_zero(z_); ret_blob(c, z_, FPB); }
+#endif
 	RET(ep_curve_is_endom()); RET(ep_curve_is_super()); RET(ep_curve_is_pairf()); RET(ep_curve_is_ctmap());
 	RET(ep_curve_opt_a()); RET(ep_curve_opt_b());
 	RET(ep_curve_embed()); RET(ep_curve_frdim());
@@ -107,11 +111,13 @@ BIND(ep_curve_params) {
 	ep_curve_get_gen(EP(2));
 	RET(fp_param_get());
 }
+#ifdef EP_ENDOM
 BIND(ep_curve_get_v) {
 	/* GLV lattice vectors into bnv slots 0 and 1 (3 entries each) */
 	const bn_st *v1 = ep_curve_get_v1(), *v2 = ep_curve_get_v2();
 	for (int i = 0; i < 3; i++) { bn_copy(BNV(0)[i], &v1[i]); bn_copy(BNV(1)[i], &v2[i]); }
 }
+#endif
 BIND(ep_curve_get_tab) {
 	const ep_t *t = ep_curve_get_tab();
 	RET(t != NULL);
@@ -152,7 +158,9 @@ BIND(ep_dbl_basic) { ep_dbl_basic(EP(0), EP(1)); }
 BIND(ep_dbl_slp_basic) { ep_dbl_slp_basic(EP(0), FP(2), EP(1)); }
 BIND(ep_dbl_projc) { ep_dbl_projc(EP(0), EP(1)); }
 BIND(ep_dbl_jacob) { ep_dbl_jacob(EP(0), EP(1)); }
+#ifdef EP_ENDOM
 BIND(ep_psi) { ep_psi(EP(0), EP(1)); }
+#endif
 
 /* ------------------------------------------------------- multiplication */
 
